@@ -18,8 +18,20 @@ def tableMismatch (k : KState) : Option String :=
       if mine == theirs then none
       else some s!"layer {li} key {c.2}: parser table {theirs} model {mine}"
 
+/-- the state with the key-output table the MODEL computes (the complete one, `keyouts_complete`)
+in place of the one the parser built, for every serialised key: the model then behaves as the
+statement requires even when the parser's table is missing an output, and the difference shows as a
+repeat the implementation drops -/
+def withModelTable (k : KState) : KState :=
+  let layers := k.layout.cfg.layers
+  { k with keyOutputs := (List.range layers.length).map fun li =>
+      let tbl := layers[li]!
+      let real := k.keyOutputs[li]?.getD []
+      let mine := (tbl.filter (·.1.1 == 0)).map fun (c, a) => (c.2, keyOutputs k.customs c.2 a)
+      mine ++ real.filter fun e => !(mine.any (·.1 == e.1)) }
+
 def modelOut (c : Kan.Case) : String :=
-  let base := Kan.modelOut c
+  let base := Kan.modelOut { c with k := c.k.map withModelTable }
   match c.k with
   | some k => match tableMismatch k with
     | some why => s!"{base} KEYOUTS-DIFFER {why}"
